@@ -406,7 +406,7 @@ static void addImported(const std::string& name, MeshGL64 g, int nRuns, bool use
   G_leaf.push_back(L);
 }
 
-enum { L_CUBETRI = 0, L_CUBEQUAD, L_TET, L_OCTA, L_PLAIN, L_TWORUN, NLEAF };
+enum { L_CUBETRI = 0, L_CUBEQUAD, L_TET, L_OCTA, L_PLAIN, L_TWORUN, L_PYRAMID, NLEAF };
 
 static void makeLeaves() {
   // (a) cube, 4 channels, every source triangle its own face ID
@@ -459,6 +459,34 @@ static void makeLeaves() {
   }
   // (f) one input MeshGL64 made of two runs with two reserved IDs (multi-material input), 1 affine channel, per-triangle face IDs
   addImported("twoRun", cubeMesh(0.9, 1.25, 1.15, 1, 1), 2, true);
+  // (g) square pyramid whose property seams END at vertices: the rim vertices are shared by all their triangles, the
+  //     apex has one property vertex per side face (merged by position through the merge vectors).  Each side edge
+  //     apex-rim therefore shares its property vertex at the rim end and differs at the apex end.
+  {
+    MeshGL64 g;
+    g.numProp = 5;
+    static const double RIM[4][3] = {{-1, -1, 0}, {1, -1, 0}, {1, 1, 0}, {-1, 1, 0}};
+    static const double RH[4][2] = {{0.5, 2.0}, {-1.0, 0.25}, {1.75, -0.5}, {0.25, 1.0}};
+    static const double AH[4][2] = {{3.0, -2.0}, {-2.5, 1.5}, {0.75, 4.0}, {5.0, 0.5}};
+    for (int i = 0; i < 4; ++i) {
+      for (int k = 0; k < 3; ++k) g.vertProperties.push_back(0.8 * RIM[i][k]);
+      g.vertProperties.push_back(RH[i][0]), g.vertProperties.push_back(RH[i][1]);
+    }
+    for (int i = 0; i < 4; ++i) {  // apex copies 4..7
+      g.vertProperties.push_back(0), g.vertProperties.push_back(0), g.vertProperties.push_back(1.1);
+      g.vertProperties.push_back(AH[i][0]), g.vertProperties.push_back(AH[i][1]);
+    }
+    for (int i = 0; i < 4; ++i) {  // side faces (outward): rim i, rim i+1, apex copy i
+      g.triVerts.push_back(i), g.triVerts.push_back((i + 1) % 4), g.triVerts.push_back(4 + i);
+      g.faceID.push_back(70 + i);
+    }
+    g.triVerts.insert(g.triVerts.end(), {0, 2, 1});
+    g.faceID.push_back(74);
+    g.triVerts.insert(g.triVerts.end(), {0, 3, 2});
+    g.faceID.push_back(75);
+    for (int i = 1; i < 4; ++i) g.mergeFromVert.push_back(4 + i), g.mergeToVert.push_back(4);
+    addImported("pyramid", g, 1, true);
+  }
 }
 
 // ------------------------------------------------------------------ programs
@@ -838,7 +866,7 @@ int main(int argc, char** argv) {
   };
   auto build = [&](Alpha al) {
     Alphabet A;
-    const std::vector<int> all = {L_CUBETRI, L_CUBEQUAD, L_TET, L_OCTA, L_PLAIN, L_TWORUN};
+    const std::vector<int> all = {L_CUBETRI, L_CUBEQUAD, L_TET, L_OCTA, L_PLAIN, L_TWORUN, L_PYRAMID};
     const std::vector<Kind> four = {K_ADD, K_SUB, K_RSUB, K_INT}, six = {K_ADD, K_SUB, K_RSUB, K_INT, K_SPLIT0, K_SPLIT1};
     if (al == SMALL) {
       for (int l : {L_CUBETRI, L_TET, L_OCTA, L_PLAIN, L_TWORUN})
@@ -912,20 +940,43 @@ int main(int argc, char** argv) {
                                  "prop_corners_judged", "prop_skipped_nonaffine", "prop_over_quarter_slack", "prop_over_half_slack", "pos_over_half_tol", "pos_over_tol", "zero_channels_judged", "states", "programs_coincident_operands", "programs_refine_of_zero_tangents", "prop_over_slack", "pos_over_2tol",
                                  "violating_programs", "violating_programs_untagged"};
 
+  // forcing masks per depth: all 2^(depth+1) up to depth 2; at depth 3 the two uniform histories and every single
+  // deviation from each (18 masks would be all; 10 are used)
+  auto modeList = [](int depth) {
+    std::vector<unsigned> m;
+    const unsigned full = (1u << (depth + 1)) - 1;
+    if (depth <= 2) {
+      m.push_back(0), m.push_back(full);  // keep "lazy" and "forced" as modes 0 and 1 (stable indices)
+      for (unsigned x = 1; x < full; ++x) m.push_back(x);
+    } else {
+      m.push_back(0), m.push_back(full);
+      for (int i = 0; i <= depth; ++i) m.push_back(1u << i), m.push_back(full & ~(1u << i));
+    }
+    return m;
+  };
+  auto modeMask = [&](int depth, int mode) { return modeList(depth)[mode]; };
   auto runProgram = [&](const Alphabet& A, const std::vector<int>& d, int depth, Ctx& c) {
     const auto& seeds = A.seeds;
     const auto& steps = A.steps;
-    // d = seed, step_1..step_depth, mode
-    const bool forced = d[depth + 1] == 1;
+    // d = seed, step_1..step_depth, mode.  mode is a bit mask: bit i set = the handle is forced (evaluated) right after
+    // the seed (i = 0) / after step i.  Mask 0 is the fully lazy history, all ones the fully forced one; the mixed
+    // ones bake some transforms into the mesh relation and leave later ones pending on the node.
+    const unsigned mask = modeMask(depth, d[depth + 1]);
     std::string name = opndName(seeds[d[0]]);
     for (int i = 1; i <= depth; ++i) name += " | " + steps[d[i]].name;
-    name += forced ? " ; forced" : " ; lazy";
+    if (mask == 0) name += " ; lazy";
+    else if (mask == (1u << (depth + 1)) - 1) name += " ; forced";
+    else {
+      name += " ; forced after";
+      for (int i = 0; i <= depth; ++i)
+        if (mask >> i & 1) name += i ? " step" + std::to_string(i) : " seed";
+    }
     c.describe(name);
     Prog p;
     p.m = placed(seeds[d[0]]);
     addInstances(p, seeds[d[0]]);
-    if (forced) (void)p.m.NumTri();
-    for (int i = 1; i <= depth; ++i) applyStep(p, steps[d[i]], forced);
+    if (mask & 1) (void)p.m.NumTri();
+    for (int i = 1; i <= depth; ++i) applyStep(p, steps[d[i]], (mask >> i & 1) != 0);
     c.count("programs");
     c.count("transitions", depth);
     if (p.m.Status() != Manifold::Error::NoError) {
@@ -963,7 +1014,7 @@ int main(int argc, char** argv) {
     for (int depth = d0; depth <= d1; ++depth) {
       std::vector<int> radix = {nSeeds};
       for (int i = 0; i < depth; ++i) radix.push_back(nSteps);
-      radix.push_back(2);
+      radix.push_back((int)modeList(depth).size());
       uint64_t N = product(radix);
       R.phase(prefix + std::to_string(depth), N, depth >= 2 ? 2 * (uint64_t)nSteps : 2,
               [&, radix, depth, N](uint64_t idx, Ctx& c) {
